@@ -44,6 +44,18 @@ def judge(ctx, mode, extra, obs, acc):
         if ev[0] == 'seeds':
             seen.setdefault(ev[1], {}).setdefault(ev[3], 0)
             seen[ev[1]][ev[3]] += 1
+            # per correlation at most peaksCount peaks are kept, and they are the HIGHEST ones
+            kept = sorted((p[2] for p in ev[5]), reverse=True)
+            if len(kept) > pc:
+                found.append(('more-seed-peaks-than-peaksCount-from-one-correlation', 'query %s reference %s: %d peaks, -p %d' % (ev[1], ev[3], len(kept), pc),
+                              'selection', {}))
+            if len(ev) > 6 and ev[6] is not None and '-md' not in extra:
+                want = ev[6][:min(pc, len(ev[6]))]
+                if len(ev[6]) <= 12 and [round(x, 9) for x in kept] != [round(x, 9) for x in want]:
+                    found.append(('kept-peaks-are-not-the-highest', 'query %s reference %s strand %s -p %d: kept heights %s, all peak heights %s' % (
+                        ev[1], ev[3], '-' if ev[4] else '+', pc, kept, ev[6]), 'selection', {}))
+                if acc is not None and len(ev[6]) > pc:
+                    acc.classes['correlations-with-more-peaks-than-peaksCount'] += 1
     for qid in ctx.qmaps:
         # candidates are built "over all references and both strands": every query is correlated with every reference twice
         if first and {r: seen.get(qid, {}).get(r, 0) for r in ctx.rmaps} != {r: 2 for r in ctx.rmaps}:
@@ -99,6 +111,12 @@ def layers(tier, seed):
     if tier != 'quick' or seed:
         sets = sets + e2e.query_sets(2 if tier == 'quick' else 40, 'c05-seed-%d' % seed)[2]
     ws = [e2e.set_world(refs, pool, s, nrefs=(3, 2, 3, 1)[i % 4], short_ref=i % 3 == 1, ref_ids=(17, 4, 9) if i % 4 == 2 else None) for i, s in enumerate(sets)]
+    # a reference with nine tandem copies of a 16.8 kb unit: one correlation then has many more peaks than peaksCount
+    from mc.props import c11
+    tr = c11.tandem_ref()
+    ws.append(dict(refs=[tr, refs[0]], queries=[e2e.worlds.as_map(e2e.QIDS[j], e2e.worlds.window_query(tr, st, 14, rv)[0][2])
+                                                for j, (st, rv) in enumerate(((19, False), (24, True), (30, False), (4, False)))],
+                   desc=['tandem-repeat reference'] * 4))
     extras = tuple(('-p', str(p)) for p in (1, 2, 3, 5))
     return [e2e.WorldLayer('worlds', ws, judge, extras=extras, extensions=[sink.Candidates, sink.Seeds],
                            bounds=dict(worlds=len(ws), peaksCount=[1, 2, 3, 5], modes=list(e2e.MODES), queries_per_world=[3, 5], references=[1, 3]),
